@@ -82,7 +82,20 @@ func genC11(w *bufio.Writer, tier string, rng *rand.Rand) {
 			for i := 0; i <= ng; i++ {
 				cs = append(cs, float64(i)/float64(ng))
 			}
-			cs = append(cs, 0.9, 0.95, 0.99, 0.999, 0.999999, 1, 1.5)
+			cs = append(cs, 0.9, 0.95, 0.99, 0.999, 0.999999, 1, 1.5, 1-1e-9, 1-1e-11, 1-1e-12, 1-2e-13, math.Nextafter(1, 0))
+			// levels around the confidences the code itself reports for a few bands (the level at which a
+			// band, or the band one bucket shorter, just suffices)
+			for _, c0 := range []float64{0.5, 0.9, 0.95, 0.99, rng.Float64()} {
+				for step := 0; step < 2; step++ {
+					r := stats.QuantileCI(n, q, c0)
+					f := r.Confidence
+					if !(f > 0 && f < 1) {
+						break
+					}
+					cs = append(cs, f, math.Nextafter(f, 2), math.Nextafter(f, -1), f+4e-10, f-4e-10, f+1e-12, f+3e-11)
+					c0 = f - 1e-7 // the next narrower band
+				}
+			}
 			emit(n, q, cs)
 		}
 	}
